@@ -85,6 +85,7 @@ From PV Require Import proofs.FloatFacts proofs.SampleFloat.
 From PV Require Import gen.GenFns proofs.SourceFacts.
 From PV Require Import proofs.SampleFloat proofs.RangeInst proofs.RatioFloat.
 From PV Require Import model.Basis proofs.BasisFacts.
+From PV Require Import proofs.BasisRun.
 
 Theorem C08_F_sample_finite :
   forall (h : handle NumF) (v step g : F), ffin v -> ffin step -> ffin g -> ffin (h_min NumF h)
@@ -202,4 +203,66 @@ Theorem S_probes_are_the_source_basis :
   forallb (state_matches_source gen_groups) gen_bounds = true.
 Proof. exact probes_are_the_source_basis. Qed.
 Print Assumptions S_probes_are_the_source_basis.
+
+
+Theorem S_initial_state_is_source :
+  forall (NN : Num) (pi_ radius : carrier NN) (n : N) (f : family) (m : N), gen_initial_length
+    NN radius n = initial_length_packed NN radius n /\ gen_initial_length_potential NN radius n
+    = initial_length_potential NN radius n /\ gen_initial_angle NN pi_ f = initial_angle NN pi_
+    f /\ gen_initial_ratio NN = initial_ratio NN /\ gen_initial_site NN m = initial_site NN m.
+Proof. exact initial_state_is_source. Qed.
+Print Assumptions S_initial_state_is_source.
+
+Theorem C08_source_ranges_hold_after_any_run :
+  forall (score : N -> list R -> option R) (c : cfg NumR) (f : family) (len ratio : R) (sites :
+    list (list bool)) (vs : list R) (s0 : R) (draws : list (draw NumR)), let ds :=
+    gen_generate_basis_packed NumR PI f len ratio sites in (1 / 100 <= len)%R -> (1 / 10 <=
+    ratio)%R -> (forall (k : nat) (d : decl NumR), nth_error ds k = Some d -> k <
+    Datatypes.length vs -> (d_min NumR d <= nth k vs 0 <= d_max NumR d)%R) -> let st' := run
+    NumR exp score c (init NumR c vs (handles_from NumR 0 ds vs) s0) draws in forall (k : nat)
+    (d : decl NumR), nth_error ds k = Some d -> k < Datatypes.length vs -> declared NumR PI f
+    len ratio d /\ (d_min NumR d <= nth k (params NumR st') 0 <= d_max NumR d)%R.
+Proof. exact C08_source_ranges_hold_after_any_run. Qed.
+Print Assumptions C08_source_ranges_hold_after_any_run.
+
+Theorem C08_source_ranges_hold_after_any_run_binary64 :
+  forall (fexp : F -> F) (score : N -> list F -> option F) (c : cfg NumF) (f : family) (len
+    ratio : F) (sites : list (list bool)) (vs : list F) (s0 : F) (draws : list (draw NumF)), let
+    ds := gen_generate_basis_packed NumF pi_f f len ratio sites in ffin len -> fmag len 300 ->
+    fleb (nofZ (n:=NumF) 1 / nofZ 100)%num len = true -> ffin ratio -> fmag ratio 300 -> fleb (nofZ (n:=NumF) 1 /
+    nofZ 10)%num ratio = true -> (forall (k : nat) (d : decl NumF), nth_error ds k = Some d -> k
+    < Datatypes.length vs -> inrF (d_min NumF d) (d_max NumF d) (nth k vs 0%float)) -> ffin
+    (max_step NumF c) -> fmag (max_step NumF c) 300 -> Forall draw_ok draws -> let st' := run
+    NumF fexp score c (init NumF c vs (handles_from NumF 0 ds vs) s0) draws in forall (k : nat)
+    (d : decl NumF), nth_error ds k = Some d -> k < Datatypes.length vs -> declared NumF pi_f f
+    len ratio d /\ inrF (d_min NumF d) (d_max NumF d) (nth k (params NumF st') 0%float).
+Proof. exact C08_source_ranges_hold_after_any_run_binary64. Qed.
+Print Assumptions C08_source_ranges_hold_after_any_run_binary64.
+
+Theorem C08_initial_state_in_declared_ranges :
+  forall (f : family) (len : R) (mults : list N), (1 / 100 <= len)%R -> Forall (fun m : N => (1
+    <= m)%N) mults -> Forall2 in_decl (generate_basis NumR PI f len (initial_ratio NumR) (map
+    (fun _ : N => wyckoff_dof) mults)) (initial_values NumR PI f len mults).
+Proof. exact initial_state_in_declared_ranges. Qed.
+Print Assumptions C08_initial_state_in_declared_ranges.
+
+Theorem C08_from_the_initial_state_through_any_run :
+  forall (score : N -> list R -> option R) (c : cfg NumR) (f : family) (radius : R) (mults :
+    list N) (s0 : R) (draws : list (draw NumR)), let n := fold_left N.add mults 0%N in let len
+    := gen_initial_length NumR radius n in let sites := map (fun _ : N => gen_wyckoff_dof) mults
+    in let ds := gen_generate_basis_packed NumR PI f len (gen_initial_ratio NumR) sites in let
+    vs := initial_values NumR PI f len mults in (1 / 100 <= len)%R -> Forall (fun m : N => (1 <=
+    m)%N) mults -> let st' := run NumR exp score c (init NumR c vs (handles_from NumR 0 ds vs)
+    s0) draws in forall (k : nat) (d : decl NumR), nth_error ds k = Some d -> k <
+    Datatypes.length vs -> declared NumR PI f len (gen_initial_ratio NumR) d /\ (d_min NumR d <=
+    nth k (params NumR st') 0 <= d_max NumR d)%R.
+Proof. exact C08_from_the_initial_state_through_any_run. Qed.
+Print Assumptions C08_from_the_initial_state_through_any_run.
+
+Theorem S_potential_basis_is_packed_basis :
+  forall (NN : Num) (pi_ : carrier NN) (f : family) (len ratio : carrier NN) (sites : list (list
+    bool)), gen_generate_basis_potential NN pi_ f len ratio sites = gen_generate_basis_packed NN
+    pi_ f len ratio sites.
+Proof. exact potential_basis_is_packed_basis. Qed.
+Print Assumptions S_potential_basis_is_packed_basis.
 
